@@ -126,7 +126,8 @@ impl Gen {
                 }
             }
         }
-        let prof = Profile { app, clients, slots, max_size, server_role, client_role, heal_rounds, wrong_proto };
+        let wrong_variant = if wrong_proto != 0 { r.range(1, 4) as u8 } else { 1 };
+        let prof = Profile { app, clients, slots, max_size, server_role, client_role, heal_rounds, wrong_proto, wrong_variant };
 
         let faults = r.chance(80);
         let mut kinds = vec![Kind::A];
